@@ -225,6 +225,11 @@ func run(prop, tier string) int {
 	budget := time.Duration(cfg.QuickBudgetS) * time.Second
 	if tier == "thorough" {
 		nshards = cfg.Shards
+		if s := os.Getenv("VERIF_THOROUGH_SHARDS"); s != "" { // development aid on a busy machine
+			if n, err := strconv.Atoi(s); err == nil && n > 0 {
+				nshards = n
+			}
+		}
 		budget = time.Duration(cfg.ThorBudgetS) * time.Second
 	}
 	results := make([]procResult, nshards)
